@@ -6,6 +6,7 @@ CONSTANTS
   MaxOps = 6
   Misuse = FALSE
   Race = FALSE
+  Quiet = FALSE
 VIEW ViewNoHist
 INVARIANTS TypeOK ChainIsPath TreeShape RefsPositive HeldIsPresent DiscardedStaysOut WaitersGetChain
 PROPERTIES OnlyChildFinalized NoTraceOfFailure OnlyFinalizeMovesFin
